@@ -37,6 +37,9 @@ type c20Case struct {
 	Muts        []c20Mut      `json:"mutations"`
 	// Chain: names of subschema-bearing fields; a chain of that many nested subschemas (one per
 	// name, cyclically up to ChainLen) is hung below the root, so that the tree is deep.
+	// RefNodes: preorder indexes of Schema objects that additionally get "$ref": "#" (the clone of a
+	// node that refers somewhere is as deep a copy as any other).
+	RefNodes []int    `json:"ref_nodes,omitempty"`
 	Chain    []string `json:"chain,omitempty"`
 	ChainLen int      `json:"chain_len,omitempty"`
 }
@@ -194,6 +197,14 @@ func checkC20(c *c20Case, rec *ev.Recorder) *failure {
 		reference := sstruct.Build(c.Spec) // an independent, structurally equal tree
 		appendChain(orig, c.Chain, c.ChainLen)
 		appendChain(reference, c.Chain, c.ChainLen)
+		for _, tree := range []*jsonschema.Schema{orig, reference} {
+			l := schemaList(tree)
+			for _, i := range c.RefNodes {
+				if i < len(l) {
+					l[i].Ref = "#"
+				}
+			}
+		}
 		clone := orig.CloneSchemas()
 		if clone == nil {
 			return failf("CloneSchemas returned nil for a non-nil schema")
@@ -271,6 +282,12 @@ func TestC20(t *testing.T) {
 	rapid.Check(t, func(t *rapid.T) {
 		c := &c20Case{MutateClone: rapid.Bool().Draw(t, "mutateclone")}
 		c.Spec = sstruct.Gen(t, sstruct.Opts{MaxDepth: rapid.IntRange(1, 2).Draw(t, "depth"), NoRefs: true, Density: rapid.IntRange(2, 5).Draw(t, "density")})
+		if rapid.IntRange(0, 2).Draw(t, "refnodes") == 0 {
+			for i, k := 0, rapid.IntRange(1, 4).Draw(t, "nrefnodes"); i < k; i++ {
+				c.RefNodes = append(c.RefNodes, rapid.IntRange(0, 30).Draw(t, "refnode"))
+			}
+			rec.Class("tree:nodes-with-$ref")
+		}
 		if rapid.IntRange(0, 9).Draw(t, "deepchain") == 0 {
 			// a legitimate tree that is a few hundred subschemas deep
 			c.ChainLen = rapid.SampledFrom([]int{40, 101, 130, 257, 400}).Draw(t, "chainlen")
